@@ -654,9 +654,10 @@ class FunctionParser(BaseParser):
                 context.handle_error(exc.AbsenceError(item=field.attname))
                 continue
             default = field.get_default(context.options)
-            if not unprovided(default):
-                # this position is definitely after parsed_args
-                # because required args is always (we enforce check) ahead of default args
+            if not unprovided(default) and len(parsed_args) == index:
+                # the default can only be passed by position if every position before it is filled
+                # (an excluded `_param` before it that was not given is not): otherwise the function's
+                # own default applies
                 parsed_args.append(default)
             parsed_keys.append(field.attname)  # need to append parsed as well
             # positional only field is excluded no matter the arg is provided or not
